@@ -325,8 +325,9 @@ def run(ctx):
     # continued fractions with a huge partial quotient right where the tracked cofactors cross a word boundary (see GcdExtAlg)
     ncf = ctx.pick(400, 4000)
     ctx.scope.update({"cf_cases": 2 * ncf})
-    t_cf = ctx.drive(std, ["--seed", str(ctx.seed + 5), "--n", "0", "--cf", str(ncf)], "trace-cf.ndjson")
-    t_cfr = ctx.drive(rel, ["--seed", str(ctx.seed + 6), "--n", "0", "--cf", str(ncf)], "trace-cf-rel.ndjson")
+    nsf = ctx.pick(160, 1600)
+    t_cf = ctx.drive(std, ["--seed", str(ctx.seed + 5), "--n", "0", "--cf", str(ncf), "--smallfam", str(nsf)], "trace-cf.ndjson")
+    t_cfr = ctx.drive(rel, ["--seed", str(ctx.seed + 6), "--n", "0", "--cf", str(ncf), "--smallfam", str(nsf)], "trace-cf-rel.ndjson")
 
     jobs = []
     jobs += split_trace(ctx, t_cf, "cf", ctx.pick(2, 6))
